@@ -1866,10 +1866,120 @@ def cli_subprocess_exit(chk):
         srv.server_close()
 
 
+def cli_subprocess_traffic(chk):
+    """The real `st run` in a subprocess, report files at their DEFAULT location (`--report=vcr,junit --report-dir`), in a
+    process whose locale encoding is not UTF-8 (LC_ALL=C, no UTF-8 mode, no locale coercion; stdio kept UTF-8), against a
+    loopback API that logs every request it serves, answers with non-ASCII JSON, declares bearer security and does not
+    enforce it.  `ignored_auth` therefore sends requests of its own and fails on them.  The server's log is the traffic:
+    the cassette must be valid YAML with one interaction per served request, the non-ASCII body intact, and every failed
+    `ignored_auth` check attached to an exchange that was sent WITHOUT the configured credentials (that is what the
+    failure is about); the JUnit file must be valid XML; the run must not die."""
+    import http.server
+    import subprocess
+    import xml.etree.ElementTree as ET
+    schema = {"openapi": "3.0.0", "info": {"title": "t", "version": "1"},
+              "components": {"securitySchemes": {"tok": {"type": "http", "scheme": "bearer"}}}, "security": [{"tok": []}],
+              "paths": {"/sec": {"get": {"parameters": [{"name": "q", "in": "query", "schema": {"type": "integer"}}],
+                                         "responses": {"200": {"description": "ok", "content": {"application/json": {
+                                             "schema": {"type": "object"}}}}}}}}}
+    hits = []
+    text = "h\u00e9llo \u2713 \u65e5\u672c"
+
+    class H(http.server.BaseHTTPRequestHandler):
+        protocol_version = "HTTP/1.1"
+
+        def log_message(self, *a):
+            pass
+
+        def do_GET(self):
+            if self.path.startswith("/openapi.json"):
+                b = json.dumps(schema).encode()
+            else:
+                if self.path.startswith("/sec"):        # (the probing phase asks for "/" - not an exchange of a test case)
+                    hits.append((self.path, self.headers.get("Authorization")))
+                b = json.dumps({"msg": text}, ensure_ascii=False).encode("utf-8")
+            self.send_response(200)
+            self.send_header("Content-Type", "application/json; charset=utf-8")
+            self.send_header("Content-Length", str(len(b)))
+            self.end_headers()
+            self.wfile.write(b)
+
+    srv = http.server.ThreadingHTTPServer(("127.0.0.1", 0), H)
+    threading.Thread(target=srv.serve_forever, daemon=True).start()
+    try:
+        port = srv.server_address[1]
+        with tempfile.TemporaryDirectory(prefix="c16-") as td:
+            rdir = os.path.join(td, "reports")
+            env = dict(os.environ, LC_ALL="C", LANG="C", PYTHONUTF8="0", PYTHONCOERCECLOCALE="0", PYTHONIOENCODING="utf-8")
+            cmd = [sys.executable, "-m", "schemathesis.cli", "run", f"http://127.0.0.1:{port}/openapi.json", "--phases=fuzzing",
+                   "--max-examples=3", "--seed=1", "--checks=ignored_auth", "-H", "Authorization: Bearer good",
+                   "--report=vcr,junit", f"--report-dir={rdir}"]
+            p = subprocess.run(cmd, capture_output=True, text=True, encoding="utf-8", errors="replace", cwd=td, timeout=600, env=env)
+            served = list(hits)
+            if not served:
+                raise InfraError(f"`st run` sent nothing: rc={p.returncode} {p.stdout[-600:]} {p.stderr[-600:]}")
+            vcr_path, junit_path = os.path.join(rdir, "vcr.yaml"), os.path.join(rdir, "junit.xml")
+            vcr = open(vcr_path, "rb").read() if os.path.exists(vcr_path) else None
+            junit = open(junit_path, "rb").read() if os.path.exists(junit_path) else None
+        replay = {"kind": "cli-traffic", "argv": cmd[3:], "env": {k: env[k] for k in ("LC_ALL", "PYTHONUTF8", "PYTHONCOERCECLOCALE")},
+                  "served": [list(h) for h in served], "rc": p.returncode, "stderr": p.stderr[-1200:], "stdout_tail": p.stdout[-600:]}
+        chk.case("st-run:traffic", key=["vcr,junit", "default-location", "C-locale"], nontrivial=True,
+                 sample={"served": len(served), "rc": p.returncode})
+        chk.feature(f"st-run:traffic:rc={p.returncode}")
+        if p.returncode not in (0, 1) or "Traceback" in p.stderr:
+            chk.violation("C16:st-run:run-aborted-while-reports-were-written",
+                          f"`st run --report=vcr,junit` under LC_ALL=C ended with exit code {p.returncode}: {p.stderr[-300:]!r}", replay)
+        docs = None
+        try:
+            docs = yaml.load(vcr, Loader=getattr(yaml, "CSafeLoader", yaml.SafeLoader))["http_interactions"] if vcr is not None else None
+        except Exception as e:  # noqa: BLE001
+            replay["parse"] = f"{type(e).__name__}: {str(e)[:200]}"
+        if docs is None:
+            chk.violation("C16:st-run:vcr-report-not-parseable",
+                          f"the cassette at the default location cannot be read back ({replay.get('parse', 'no file')})", replay)
+        else:
+            if len(docs) != len(served):
+                chk.violation("C16:st-run:vcr-report-differs-from-traffic",
+                              f"the cassette lists {len(docs)} exchanges, the API served {len(served)} requests", replay)
+            for d in docs:
+                body = ((d.get("response") or {}).get("body") or {}).get("string")
+                if body is not None and text not in body:
+                    chk.violation("C16:st-run:vcr-response-body-differs-from-traffic",
+                                  f"response body recorded as {body[:80]!r}; the API sent {text!r} in it", replay)
+                    break
+            for d in docs:
+                auth = ((d.get("request") or {}).get("headers") or {}).get("Authorization")
+                failed = [c["name"] for c in d.get("checks") or [] if c.get("status") == "FAILURE"]
+                chk.feature(f"st-run:traffic:exchange-with-credentials={auth is not None}:failed={bool(failed)}")
+                # (the value is redacted in the cassette; the server saw a credential only on the exchanges of the test
+                # cases themselves: the check's own first request goes out without the header)
+                if "ignored_auth" in failed and auth is not None:
+                    chk.violation("C16:st-run:failed-check-attached-to-another-exchange-than-the-one-it-failed-on",
+                                  f"ignored_auth is listed as FAILURE on the exchange sent with the configured credentials "
+                                  f"({auth}); it failed on the request it sent without them", replay)
+                    break
+            else:
+                if not any("ignored_auth" in [c["name"] for c in d.get("checks") or [] if c.get("status") == "FAILURE"]
+                           for d in docs) and p.returncode == 1:
+                    chk.violation("C16:st-run:failed-check-missing-from-the-cassette",
+                                  "the run reported a failure of ignored_auth, no exchange of the cassette lists it", replay)
+        try:
+            if junit is None:
+                raise ValueError("no file")
+            ET.fromstring(junit)
+        except Exception as e:  # noqa: BLE001
+            chk.violation("C16:st-run:junit-report-not-parseable",
+                          f"the JUnit report at the default location cannot be read back: {type(e).__name__}: {str(e)[:200]}", replay)
+    finally:
+        srv.shutdown()
+        srv.server_close()
+
+
 def exit_corr(chk, rng, n, join_variant, click_owns):
     exit_judge(chk, "_execute:exit:witness", [exit_witness_case()], join_variant, click_owns)
     cases = [gen_exit_case(chk, rng) for _ in range(n)] + [gen_exit_case(chk, rng, real_timeout=True)]
     exit_judge(chk, "_execute:exit", cases, join_variant, click_owns)
+    cli_subprocess_traffic(chk)
     if chk.thorough:
         cli_subprocess_exit(chk)
 
